@@ -112,6 +112,8 @@ class StoreWorld:
                     o["res"] = ["ok", ev_to_dict(e) if e else None]
                 except Exception as e:
                     o["res"] = ["err", type(e).__name__, str(e)[:200]]
+            elif kind == "http":
+                o["res"] = await self.http_get(op[1])
             elif kind == "del":
                 o["pre"] = env.dump()
                 try:
@@ -167,6 +169,23 @@ class StoreWorld:
                 sim.sql.end_op()
         o["t1"] = sim.stamp()
         return o
+
+    async def http_get(self, event_id):
+        """GET /e/<id> through the real resource class (stub request/response objects)"""
+        import falcon
+        from nostr_relay.web import ViewEventResource
+
+        class Resp:
+            media = None
+
+        resp = Resp()
+        try:
+            await ViewEventResource(self.env.storage).on_get(None, resp, event_id)
+        except falcon.HTTPNotFound:
+            return ["404"]
+        except Exception as e:
+            return ["err", type(e).__name__, str(e)[:200]]
+        return ["ok", _plain(resp.media)]
 
     def make_gc(self):
         if self.gc is None or self.gc.storage is not self.env.storage:
